@@ -52,7 +52,8 @@ def enum_plans(tier):
                         yield {'n': n, 'status': 'PASS', 'act_only': act_only, 'keep': keep,
                                'faults': [[ph, step, i, k]]}
                         if tier != 'quick' or (ph, step) in (('setup', 'main'), ('act', 'execute'),
-                                                             ('assert', 'main'), ('act', 'prepare')):
+                                                             ('assert', 'main'), ('act', 'prepare'),
+                                                             ('before-assert', 'main'), ('setup', 'post')):
                             for ci in range(n['cleanup']):
                                 if not (ph == 'cleanup' and step == 'main'):
                                     yield {'n': n, 'status': 'PASS', 'act_only': act_only, 'keep': keep,
@@ -187,6 +188,8 @@ def cli_build(case):
     elif e == 'timeout_act':
         ph['setup'] += ['timeout = 1']
         ph['act'] = ['$ sleep 5']
+    if case.get('cleanup_fails') and e != 'hard_cleanup':
+        ph['cleanup'].append('$ exit 4')
     # observation of the final state: first thing cleanup does (cleanup runs whenever a sandbox exists)
     ph['cleanup'].insert(0, '$ cp -r @[EXACTLY_RESULT]@ {OBS}/result-copy; cp -r @[EXACTLY_TMP]@ {OBS}/tmp-copy; '
                             'ls -A @[EXACTLY_ACT]@/.. | sort > {OBS}/ls1')
@@ -218,6 +221,10 @@ def check_cli(case) -> Verdict:
     keep = case['keep']
     argv = (['--keep'] if keep else []) + ['t.case']
     exp_ident = {'pass': 'PASS', 'fail': 'FAIL'}.get(e, 'HARD_ERROR')
+    exp_idents = {exp_ident}
+    if case.get('cleanup_fails'):
+        # a failing cleanup step may be named instead of the earlier failure
+        exp_idents = {'HARD_ERROR'} if e == 'pass' else {exp_ident, 'HARD_ERROR'}
     act_ran = e in ('pass', 'fail', 'hard_before-assert', 'hard_assert', 'hard_cleanup')
     with driver.Workspace() as ws:
         ws.write('t.case', text)
@@ -240,7 +247,9 @@ def check_cli(case) -> Verdict:
     ident = (r.first_err_line if keep else r.first_out_line)
     polluting = [op for _, op in case['ops'] if op not in ('tmp_file', 'act_file')]
     labels = ['cli', 'cli-ending:' + e, 'cli-keep:%s' % keep] + ['cli-op:' + op for _, op in case['ops']]
-    nontrivial = e != 'pass' or bool(polluting) or keep
+    if case.get('cleanup_fails'):
+        labels.append('cli-cleanup-also-fails')
+    nontrivial = e != 'pass' or bool(polluting) or keep or bool(case.get('cleanup_fails'))
     detail = {'case_text': text, 'argv': argv, 'exit': r.exit_code, 'out': r.out[:300], 'err': r.err[:500],
               'sandboxes': sandboxes, 'cwd_changed': r.cwd_changed, 'env_diff': r.env_diff,
               'observed': {k: v for k, v in obs.items() if k != 'kept'}}
@@ -253,7 +262,7 @@ def check_cli(case) -> Verdict:
         return bad('exception-escaped')
     if r.timed_out:
         return Verdict(inconclusive=True, labels=labels)
-    if ident != exp_ident:
+    if ident not in exp_idents:
         return bad('unexpected-verdict')
     if r.cwd_changed is not None:
         return bad('cwd-of-process-changed')
@@ -331,6 +340,7 @@ def cli_cases(draw, allow_timeouts=True):
     else:
         ending = draw(st.sampled_from(endings))
     return {'ops': [list(o) for o in ops], 'ending': ending, 'keep': draw(st.booleans()),
+            'cleanup_fails': draw(st.integers(0, 3)) == 0,
             'code': draw(st.sampled_from([0, 1, 2, 7, 127, 255]) | st.integers(0, 255)),
             'out': draw(_text), 'err': draw(_text)}
 
